@@ -1535,3 +1535,7 @@ def _reword(x):
 
 
 NOT_PROVED = [_reword(x) for x in NOT_PROVED if not str(x).startswith("that tapeEval satisfies EvalLaws")]
+
+# --- review repairs in the Rounding layer (renamed stdmodel_* theorems, underflow-aware variants, genuine FlModel instance; wired by the lead)
+REQUIRED_THEOREMS = REQUIRED_THEOREMS + [t for t in ['Cv.Rounding8.LMrun.wf_belongs_body', 'Cv.Rounding8.LMrun.tapeEval_linModel', 'Cv.Rounding8.LMrun.Examples.prog01_lin'] if t not in REQUIRED_THEOREMS]
+NOT_PROVED = list(NOT_PROVED) + ['the LM loop theorems (Rounding8.LMrun) are stated for LinModel over EvalLawsOn ... WFSt; tapeEval_linModel shows that the tape evaluator of the source on an RPN program linear in the parameters (example p0 + p1 x) is such a model; mu, nu > 0 at the start are derived from tau > 0 and p > 0']
